@@ -438,15 +438,13 @@ func (matrix *SparseFloat32Matrix) PermuteRows(pi []int) error {
   if n != m {
     return fmt.Errorf("SymmetricPermutation(): matrix is not a square matrix")
   }
-  // permute matrix
-  for i := 0; i < n; i++ {
-    if pi[i] < 0 || pi[i] > n {
-      return fmt.Errorf("SymmetricPermutation(): invalid permutation")
-    }
-    if i != pi[i] && pi[i] > i {
-      matrix.SwapRows(i, pi[i])
-    }
+  if err := checkPermutation(pi, n); err != nil {
+    return fmt.Errorf("SymmetricPermutation(): invalid permutation")
   }
+  // permute matrix, row/column i becomes row/column pi[i]
+  applyPermutation(pi, func(i, j int) {
+    matrix.SwapRows(i, j)
+  })
   return nil
 }
 func (matrix *SparseFloat32Matrix) PermuteColumns(pi []int) error {
@@ -454,15 +452,13 @@ func (matrix *SparseFloat32Matrix) PermuteColumns(pi []int) error {
   if n != m {
     return fmt.Errorf("SymmetricPermutation(): matrix is not a square matrix")
   }
-  // permute matrix
-  for i := 0; i < m; i++ {
-    if pi[i] < 0 || pi[i] > n {
-      return fmt.Errorf("SymmetricPermutation(): invalid permutation")
-    }
-    if i != pi[i] && pi[i] > i {
-      matrix.SwapColumns(i, pi[i])
-    }
+  if err := checkPermutation(pi, n); err != nil {
+    return fmt.Errorf("SymmetricPermutation(): invalid permutation")
   }
+  // permute matrix, row/column i becomes row/column pi[i]
+  applyPermutation(pi, func(i, j int) {
+    matrix.SwapColumns(i, j)
+  })
   return nil
 }
 func (matrix *SparseFloat32Matrix) SymmetricPermutation(pi []int) error {
@@ -470,17 +466,14 @@ func (matrix *SparseFloat32Matrix) SymmetricPermutation(pi []int) error {
   if n != m {
     return fmt.Errorf("SymmetricPermutation(): matrix is not a square matrix")
   }
-  for i := 0; i < n; i++ {
-    if pi[i] < 0 || pi[i] > n {
-      return fmt.Errorf("SymmetricPermutation(): invalid permutation")
-    }
-    if pi[i] > i {
-      // permute rows
-      matrix.SwapRows(i, pi[i])
-      // permute colums
-      matrix.SwapColumns(i, pi[i])
-    }
+  if err := checkPermutation(pi, n); err != nil {
+    return fmt.Errorf("SymmetricPermutation(): invalid permutation")
   }
+  // permute matrix, row/column i becomes row/column pi[i]
+  applyPermutation(pi, func(i, j int) {
+    matrix.SwapRows(i, j)
+    matrix.SwapColumns(i, j)
+  })
   return nil
 }
 /* type conversion
